@@ -54,6 +54,9 @@ def check(ctx):
     from ..multiplicity import rule as multiplicity_rule
     multiplicity_rule(ctx, "R10", ['ode'], "the modifier term")
     _r11_name_tokenizers(ctx)
+    # each rendering is computed from the network of that call: the renderer keeps no memo between two renderings (shared with C17.R7)
+    from .c17 import stateless_renderer
+    stateless_renderer(ctx, package(ctx.tree), "R12")
 
 
 # ------------------------------------------------------------------ R6  command line: every term is accumulated
